@@ -630,6 +630,8 @@ type Dialer struct {
 	// Fail, if set, makes Dial return an error
 	Fail  bool
 	Dials int
+	// ServerPort, if non-zero, is the server-side port of the links this dialer creates (default 443)
+	ServerPort int
 	// Addrs records the "network address" pairs the dialer was asked for
 	Addrs []string
 	mu    sync.Mutex
@@ -659,8 +661,18 @@ func (d *Dialer) Dial(network, address string) (net.Conn, error) {
 		return nil, fmt.Errorf("advnet: dial %s %s refused", network, address)
 	}
 	l := d.Net.NewLink()
+	if d.ServerPort != 0 {
+		l.SetServerPort(d.ServerPort)
+	}
 	d.Ln.Push(l.B)
 	return l.A, nil
+}
+
+// SetServerPort changes the port of the B ("server") side address of the link: what the accepting side sees as its
+// local address and the dialling side as the remote one (a server listening on several ports).
+func (l *Link) SetServerPort(port int) {
+	b := &net.TCPAddr{IP: net.IPv4(10, 1, 0, 1), Port: port}
+	l.A.remote, l.B.local = b, b
 }
 
 // Link returns the link this end belongs to.
